@@ -1,4 +1,5 @@
 import HdVerif.Proofs.SREvidence
+import HdVerif.Proofs.SREvidenceTie
 import HdVerif.Generated.T15c
 /-! # C15  SR documents carry their content intact with complete evidence
 
@@ -834,5 +835,108 @@ example : (buildKO [⟨"ct", "1.1"⟩, ⟨"ct", "1.1"⟩] true exEvd).bind (fun 
 example : (buildKO [⟨"ct", "1.1"⟩, ⟨"ct", "1.1"⟩] true exEvd).bind (fun d => d.resolve "3.1") = .error .value := by decide
 /-- objects from two studies -/
 example : (buildKO [⟨"ct", "1.1"⟩, ⟨"ct", "2.1"⟩] false exEvd).toBool = false := by decide
+
+/-! ### The reference builders and the document constructor are the source's (tie T, targets T15f, T15g, T15h)
+
+The theorems above speak about the hand-written `segFrameLoop` / `segFrameSource` / `segFrameSegment` / `segFrameNumbers`,
+`namedFrames` / `mergeSrc` and `buildSR` of `Model/SREvidence.lean`.  The statements below tie them to `sr/content.py` and
+`sr/sop.py` as they are now: every range guard, index, branch of the loop body, merge decision, guard and recording test in
+them is the expression regenerated from the current source (`Generated/T15f.lean`, `T15g.lean`, `T15h.lean`); proofs in
+`Proofs/SREvidenceTie.lean`. -/
+
+/-- every iteration of the loop over the named frames of `ReferencedSegmentationFrame.from_segmentation` refuses, indexes and
+updates (source uids set / frame numbers united / whole image) exactly as the regenerated range guard
+(`frame_number < 1 or frame_number > number_of_frames`), index (`frame_number - 1`) and loop body say -/
+theorem segmentation_frame_loop_is_the_source_loop (s : Seg) (f : Int) (fs : List Int) (a : LoopAcc) :
+    segFrameLoop s (f :: fs) a =
+      (match Gen.segFrameIndex f s.frames.length with
+       | .error e => .error e
+       | .ok i =>
+         match s.frames[i.toNat]? with
+         | none => .error .value
+         | some fi =>
+           match Gen.segFrameStep fi.hasDrv fi.nDrv fi.hasSrc fi.nSrc a.srcUids.isNone (uidsDiffer a fi) fi.hasFrames with
+           | .error e => .error e
+           | .ok r => segFrameLoop s fs (applyStep a fi r)) := segFrameLoop_cons s f fs a
+
+/-- what the loop is followed by is the source's: the source image is named with the collected frame numbers or as a whole by
+the regenerated choice, the fallback to the referenced series and the checks on the segment numbers and on the frames of a
+segment are the regenerated ones -/
+theorem segmentation_frame_choices_are_the_source_choices (s : Seg) (a : LoopAcc) :
+    (∀ c i, a.srcUids = some (c, i) →
+      segFrameSource s a = (match Gen.segFrameNameFrames a.srcFrames.length a.srcWhole with
+        | .ok named => .ok (SrcImg.mk c i (if named then some a.srcFrames else none))
+        | .error e => .error e)) ∧
+    (a.srcUids = none →
+      segFrameSource s a = (match Gen.segFrameFallback s.refSeries.isSome s.refInstances.isSome ((s.refInstances.getD []).length) with
+        | .error e => .error e
+        | .ok _ => match s.refInstances with
+          | some [r] => .ok (SrcImg.mk r.cls r.inst none)
+          | _ => .error .value)) ∧
+    (∀ segment sn rest, dedup a.segs [] = sn :: rest →
+      segFrameSegment a segment = (match Gen.segFrameSegmentCheck (sn :: rest).length segment.isSome (decide (some sn ≠ segment)) with
+        | .ok _ => .ok sn
+        | .error e => .error e)) ∧
+    (∀ sn, segFrameNumbers s none (some sn) = (match Gen.segFrameOwnGuard (framesOfSegment s.frames sn).length s.tiled with
+        | .ok _ => .ok (framesOfSegment s.frames sn)
+        | .error e => .error e)) :=
+  ⟨fun c i h => segFrameSource_named s a c i h, segFrameSource_fallback s a, fun segment sn rest h => segFrameSegment_gen a segment sn rest h,
+   segFrameNumbers_own s⟩
+
+/-- `ReferencedSegment.from_segmentation`: every named frame is validated by the regenerated range guard, index and segment
+guard; a source image meets the per-instance table by the regenerated merge (new entry behind all others / the whole instance
+from now on / union of the frame numbers); a segment without frames is refused by the regenerated guard -/
+theorem segment_reference_steps_are_the_source_steps (s : Seg) (segment : Int) :
+    (∀ f fs, namedFrames s segment (f :: fs) =
+      (match Gen.segRefIndex f s.frames.length with
+       | .error e => .error e
+       | .ok i =>
+         match s.frames[i.toNat]? with
+         | none => .error .value
+         | some fi =>
+           match Gen.segRefSegmentGuard fi.segment segment with
+           | .error e => .error e
+           | .ok _ => (namedFrames s segment fs).map (fi :: ·))) ∧
+    (∀ (y x : SrcImg) ys, y.inst = x.inst →
+      mergeSrc (y :: ys) x = (match Gen.segRefMerge false y.frames.isNone x.frames.isNone with
+        | .ok 1 => { y with frames := none } :: ys
+        | .ok 2 => { y with frames := some (unionInto (y.frames.getD []) (x.frames.getD [])) } :: ys
+        | _ => y :: ys)) ∧
+    (∀ t (x : SrcImg), (∀ y ∈ t, y.inst ≠ x.inst) →
+      Gen.segRefMerge true (decide False) x.frames.isNone = .ok 0 ∧ mergeSrc t x = t ++ [x]) ∧
+    (∀ r, refSegment s segment none = .ok r →
+      Gen.segRefOwnGuard (s.frames.filter (fun fi => fi.segment = segment)).length = .ok true) :=
+  ⟨namedFrames_cons s segment, fun y x ys h => mergeSrc_known y x ys h, mergeSrc_new, refSegment_own s segment⟩
+
+/-- the document constructor of the model refuses an empty evidence list and a sequence of several roots by the regenerated
+guards of `_SR.__init__` (which in turn pass only a non-empty list and exactly one root), and what it records (current-procedure evidence, other evidence iff `record_evidence`, predecessors)
+is decided by the regenerated tests (`len(ref_items) > 0`, `len(unref_items) > 0 and record_evidence`,
+`previous_versions is not None`) on the two results of `collect_evidence(evidence, content)` -/
+theorem document_recording_is_the_source_recording (a : DocArgs) :
+    (∀ d, buildSR a = .ok d →
+      Gen.srEvidenceGuard a.evidence.length = .ok true ∧ Gen.srContentGuard a.nRoots = .ok true ∧
+      ∃ cur oth, collectEvidence a.evidence a.tree = .ok (cur, oth) ∧
+        d.current = (if Gen.srRecordCurrent cur.length = .ok true then cur else []) ∧
+        d.other = (if Gen.srRecordOther a.record oth.length = .ok true then oth else []) ∧
+        d.predecessors = (if Gen.srRecordPredecessors a.previous.isSome = .ok true then a.previous.map predecessors else none)) ∧
+    (Gen.srEvidenceGuard a.evidence.length ≠ .ok true ∨ Gen.srContentGuard a.nRoots ≠ .ok true → ∃ e, buildSR a = .error e) ∧
+    (Gen.srEvidenceGuard a.evidence.length = .ok true → Gen.srContentGuard a.nRoots = .ok true →
+      a.evidence.isEmpty = false ∧ a.nRoots = 1) :=
+  ⟨fun d h => buildSR_gen a d h, buildSR_refused_gen a, buildSR_guards_complete a⟩
+
+/-- non-vacuity: the regenerated expressions on the example segmentation (frame 3 of `exSeg`, a frame outside, a frame with two
+derivation items), the merge on a whole-instance mention, the constructor guards on the example document -/
+example : Gen.segFrameIndex 3 (exSeg.frames.length) = .ok 2 ∧ Gen.segFrameIndex 0 (exSeg.frames.length) = .error .value ∧
+    Gen.segFrameIndex 5 (exSeg.frames.length) = .error .value := by decide
+example : (exSeg.frames[2]?).map (fun fi => Gen.segFrameStep fi.hasDrv fi.nDrv fi.hasSrc fi.nSrc true false fi.hasFrames) =
+    some (.ok (true, true, false)) := by decide
+example : (exSegMulti.frames[0]?).map (fun fi => Gen.segFrameStep fi.hasDrv fi.nDrv fi.hasSrc fi.nSrc true false fi.hasFrames) =
+    some (.error .value) := by decide
+example : Gen.segFrameNameFrames 2 false = .ok true ∧ Gen.segFrameNameFrames 2 true = .ok false ∧ Gen.segFrameNameFrames 0 false = .ok false := by
+  decide
+example : Gen.segRefMerge false true false = .ok 1 ∧ Gen.segRefMerge false false false = .ok 2 ∧ Gen.segRefMerge true false false = .ok 0 := by
+  decide
+example : Gen.srEvidenceGuard (exArgs .comprehensive3d true).evidence.length = .ok true ∧ Gen.srContentGuard 2 = .error .value ∧
+    Gen.srRecordOther false 3 = .ok false ∧ Gen.srRecordOther true 3 = .ok true ∧ Gen.srRecordOther true 0 = .ok false := by decide
 
 end HdVerif.C15
